@@ -92,8 +92,20 @@ def bookkeeping(cases):
             except Exception:  # noqa
                 pass
 
+def cross_declare():
+    """an application declares an equivalence between units of DIFFERENT dimensions (c = 1 style: a length unit and a time unit, a
+    mass and an energy): conversions.equate does not look at dimensions, but dimensional analysis must keep refusing the pair"""
+    from measured import Dimension
+    L, T, M = Dimension._by_name["length"], Dimension._by_name["time"], Dimension._by_name["mass"]
+    xl, xt, xm = L.unit("vfxlength", "vfxl"), T.unit("vfxtime", "vfxt"), M.unit("vfxmass", "vfxm")
+    xl.equals(2 * xt)
+    (Prefix._by_name["kilo"] * xm).equals(3 * xl)
+    xt.equals(Quantity(Decimal("0.5"), Unit._by_name["second"]))
+    C.refresh()
+
 def run(data):
     res = []
+    if data.get("cross_declare"): cross_declare()
     prelude(data.get("prelude", []))
     bookkeeping(data["cases"])
     for c in data["cases"]:
